@@ -25,6 +25,7 @@ mod scale_iovec;
 mod scale_codec;
 mod scale_stream;
 mod scale_readn;
+mod scale_tlv;
 mod util;
 
 use std::io::Write;
@@ -53,6 +54,8 @@ fn families() -> Vec<Box<dyn Family>> {
     v.push(Box::new(scale_stream::ScaleChunkerFamily));
     v.push(Box::new(scale_stream::ScaleReaderFamily));
     v.push(Box::new(scale_readn::ScaleReadNFamily));
+    v.push(Box::new(scale_tlv::ScaleTlvFamily));
+    v.push(Box::new(scale_tlv::ScaleTlvViewFamily));
     v
 }
 
